@@ -12,10 +12,10 @@ import time
 from concurrent.futures import ThreadPoolExecutor
 
 VERIF = os.path.dirname(os.path.dirname(os.path.abspath(__file__)))
-REPO = "/repo"
+REPO = os.environ.get("VERIF_REPO", "/repo")  # a scratch worktree can stand in for /repo (self-tests, seeded changes)
 SPEC = os.path.join(VERIF, "spec")
 HARNESS = os.path.join(VERIF, "harness")
-EVID = os.path.join(VERIF, "evidence")
+EVID = os.environ.get("VERIF_EVIDENCE_DIR") or os.path.join(VERIF, "evidence")  # self-tests write elsewhere
 NCPU = os.cpu_count() or 4
 
 GOENV = dict(os.environ, GOFLAGS="-mod=mod", GOPROXY="off", GOSUMDB="off", GOTOOLCHAIN="local",
@@ -64,6 +64,14 @@ def build_harness(work, race=False, tags="verif"):
     cmd = [GO, "test", "-c", "-tags", tags, "-o", out]
     if race:
         cmd.append("-race")
+    if REPO != "/repo":
+        mod = work.path("alt.mod")
+        with open(os.path.join(HARNESS, "go.mod")) as f:
+            txt = f.read().replace("=> /repo", "=> " + REPO)
+        with open(mod, "w") as f:
+            f.write(txt)
+        open(work.path("alt.sum"), "w").close()
+        cmd += ["-modfile", mod]
     cmd.append(".")
     t = time.time()
     p = subprocess.run(cmd, cwd=HARNESS, env=GOENV, capture_output=True, text=True)
